@@ -134,7 +134,33 @@ func propC18(t *rapid.T) {
 	// a little history so that representations are not only the freshly built ones
 	for i := 0; i < rapid.IntRange(0, 4).Draw(t, "nops"); i++ {
 		s, e := range64(t, "r", m)
-		switch rapid.IntRange(0, 2).Draw(t, "op") {
+		switch rapid.IntRange(0, 3).Draw(t, "op") {
+		case 3:
+			// union with a partner that brings one chunk to 4095/4096/4097 values (array/bitmap threshold)
+			if m.IsEmpty() {
+				continue
+			}
+			pm := thresholdPartner64(t, m)
+			pb := roaring64.New()
+			if pm.Card() <= 6000 {
+				pb.AddMany(pm.ToSlice())
+			} else {
+				for _, iv := range pm.Intervals() {
+					pb.AddRange(iv.Lo, iv.Hi+1)
+				}
+			}
+			switch rapid.IntRange(0, 3).Draw(t, "how") {
+			case 0:
+				b = roaring64.Or(b, pb)
+			case 1:
+				b.Or(pb)
+			case 2:
+				b = roaring64.FastOr(b, pb)
+			default:
+				b = roaring64.ParOr(2, pb, b)
+			}
+			m = model.Or(m, pm)
+			inst.Count("C18", "history:threshold-union")
 		case 0:
 			b.AddRange(s, e)
 			if e > s {
@@ -165,6 +191,24 @@ func propC18(t *rapid.T) {
 	wn, err := b.WriteTo(&wb)
 	if err != nil || int(wn) != len(by) || !bytes.Equal(wb.Bytes(), by) {
 		fail("WriteTo=(%d,%v) disagrees with ToBytes (%d bytes)", wn, err, len(by))
+	}
+	// a writer that fails: WriteTo must report it (io.WriterTo), whatever the offset
+	{
+		offs := []int{0, 1, 7, 8, 11, 12, len(by) - 1, len(by) - 2, len(by) / 2}
+		for i := 0; i < 6; i++ {
+			offs = append(offs, rapid.IntRange(0, len(by)).Draw(t, "failAt"))
+		}
+		for _, k := range offs {
+			if k < 0 || k >= len(by) {
+				continue
+			}
+			fw := &failingWriter{budget: k, partial: rapid.Bool().Draw(t, "partial")}
+			n, err := b.WriteTo(fw)
+			if err == nil {
+				fail("WriteTo to a writer that accepts only %d of %d bytes returned (%d, nil)", k, len(by), n)
+			}
+			inst.Count("C18", "failing-writer-offsets")
+		}
 	}
 	if g := b.GetSerializedSizeInBytes(); g != uint64(len(by)) {
 		fail("GetSerializedSizeInBytes=%d but %d bytes written", g, len(by))
@@ -323,6 +367,66 @@ func propC18(t *rapid.T) {
 		inst.Count("C18", fmt.Sprintf("mutant:count=2^%d(child)", bitsLen(c)))
 	}
 	inst.Case("C18", nb >= 2 || len(cuts) > 8, desc)
+}
+
+type failingWriter struct {
+	budget  int
+	partial bool
+}
+
+func (w *failingWriter) Write(p []byte) (int, error) {
+	if len(p) <= w.budget {
+		w.budget -= len(p)
+		return len(p), nil
+	}
+	n := 0
+	if w.partial {
+		n = w.budget
+	}
+	w.budget = 0
+	return n, fmt.Errorf("injected writer failure")
+}
+
+// thresholdPartner64 draws a set inside one chunk of m such that the union of that chunk with it has
+// 4095, 4096 or 4097 values (when the chunk is smaller), overlapping the chunk in a drawn number of values.
+func thresholdPartner64(t *rapid.T, m *model.Set) *model.Set {
+	v := value64(t, "thr.chunk", m)
+	if !m.Contains(v) {
+		v = m.Min()
+	}
+	base := v &^ 0xFFFF
+	as := m.Window(base, base|0xFFFF)
+	target := uint64(rapid.SampledFrom([]int{4095, 4096, 4097}).Draw(t, "thr.target"))
+	out := model.New()
+	comp := as.Complement(base, base|0xFFFF)
+	if as.Card() < target {
+		need := target - as.Card()
+		if comp.Card() >= need {
+			// spread: every step-th absent value
+			step := comp.Card() / need
+			if step > 1 && rapid.Bool().Draw(t, "thr.spread") {
+				for i := uint64(0); i < need; i++ {
+					x, _ := comp.Select(i * step)
+					out.Add(x)
+				}
+			} else {
+				x, _ := comp.Select(need - 1)
+				out = comp.Window(base, x)
+			}
+		}
+	} else {
+		out.Add(as.Min())
+	}
+	// overlap with what is already there
+	ov := uint64(rapid.IntRange(0, 3000).Draw(t, "thr.overlap"))
+	if ov > as.Card() {
+		ov = as.Card()
+	}
+	for i := uint64(0); i < ov; i++ {
+		x, _ := as.Select(i * (as.Card() / ov))
+		out.Add(x)
+	}
+	return out
 }
 
 func minInt(a []int) int {
